@@ -130,6 +130,18 @@ func VerifC14_Lister() {
 	}
 	cl.release <- reply
 	<-cl.starts
+	if zzverif.NondetInt("slow-controller", 0, 1) == 1 {
+		// the controller is busy for longer than a refresh period before it takes the result:
+		// the failed result must still be the one it gets (no list may start meanwhile)
+		zzverif.Quiesce()
+		select {
+		case cl.release <- vListReply{obj: &corev1.PodList{}}:
+			<-cl.starts
+			zzverif.Quiesce()
+		default:
+		}
+		zzverif.Reach("C14/lister-slow-controller")
+	}
 	r := <-l.Result() // a failure that is never handed over leaves the controller running on a cache it cannot refresh
 	zzverif.Assert(r.err != nil, "C14/lister/failure-reported")
 	if kind == 0 {
